@@ -113,7 +113,7 @@ COMPS = {}
 for _mt in MEMTYPES:
     COMPS[_mt] = Component(
         spec="MemBank", name="MemoryBank", build=build, methods=methods, has_arg=has_arg, gen_arg=gen_arg,
-        tracker=Tracker, want=want, module=__name__, attr="COMP_" + _mt,
+        tracker=Tracker, want=want, module=__name__, attr="COMP_" + _mt, shadow=methods,
         impl_cfg=(lambda mt: (lambda cfg: full_cfg(cfg, cfg.get("memory_type", mt))))(_mt))
     globals()["COMP_" + _mt] = COMPS[_mt]
 COMP = COMPS["Memory"]
